@@ -16,6 +16,8 @@
 //	4 tok ok u t                         Deserialize of an arbitrary string
 //	5 cfg ( (nonce plain sealed)* ) ( (nonce u t tokE tokRC tokR)* )
 //	      ( (s ty decOk dec rcOut rcU rOut rU)* )   token scenario, see scenario()
+//	6 cfg ( (nonce data sealed)? ) nonce data tok decOk dec   Encoder.Encode(data) for arbitrary data
+//	                                     (what ListStores / ReadAuthorizationModels do), Decode of that
 //
 // Besides the records, the property's own predicate is evaluated directly on the implementation
 // (w.PropFail): round trips, and "every presented string that the GCM encoder accepts carries,
@@ -84,6 +86,8 @@ const (
 	outFrom     = 3
 	outOther    = 9
 )
+
+var outNames = map[int]string{outInvalid: "invalid", outMismatch: "mismatch", outStart: "start", outFrom: "from", outOther: "other"}
 
 func classify(err error, called bool, from string) (int, string) {
 	switch {
@@ -663,7 +667,11 @@ func scenario(w *rec.Writer, sub uint64) {
 		presV = append(presV, rec.L(rec.S(p.s), rec.S(p.ty), rec.Bool(derr == nil), rec.B(d),
 			rec.I(rcO), rec.S(rcU), rec.I(rO), rec.S(rU)))
 		w.Stat("presented", 1)
-		w.Stat(fmt.Sprintf("presented[%s]->%d", p.class, rcO), 1)
+		grp := "plain"
+		if isGcm(cfg) {
+			grp = "gcm"
+		}
+		w.Stat(fmt.Sprintf("%s[%s]->%s", grp, p.class, outNames[rcO]), 1)
 		if !isGcm(cfg) {
 			continue
 		}
@@ -726,6 +734,53 @@ func scenario(w *rec.Writer, sub uint64) {
 	w.Case(desc, rec.I(5), rec.I(cfg), rec.L(table...), rec.L(issV...), rec.L(presV...))
 }
 
+// kind 6: Encoder.Encode / Decode on arbitrary data (no serializer), every configuration
+func caseEncoder(w *rec.Writer, sub uint64) {
+	r := rec.NewRand(sub)
+	cfg := r.Intn(6)
+	key := rec.Pick(r, keys)
+	enc := buildEncoder(cfg, key)
+	nonce := genNonce(r)
+	var data []byte
+	switch r.Intn(6) {
+	case 0: // empty: the len(data)==0 short cut of Encrypt
+	case 1:
+		data = randBytes(r, r.Range(1, 3))
+	case 2:
+		data = []byte(genUlid(r))
+	case 3:
+		data = randBytes(r, r.Range(4, 80))
+	case 4:
+		data = []byte(rec.Pick(r, []string{"\n", "=", "\r\n", "|", "\x00"}))
+	default:
+		data = []byte(genUlid(r) + "|" + genType(r))
+	}
+	desc := map[string]any{"kind": "encoder", "sub": strconv.FormatUint(sub, 10), "cfg": cfgNames[cfg], "key": key, "len": len(data)}
+	feedNonce(nonce)
+	tok, err := enc.Encode(data)
+	if err != nil {
+		w.PropFail("Encoder.Encode failed", desc)
+		return
+	}
+	d, derr := enc.Decode(tok)
+	if derr != nil || !bytes.Equal(d, data) {
+		w.PropFail("Encoder: Decode(Encode(data)) != data", desc)
+	}
+	if derr != nil {
+		d = nil
+	}
+	var table []rec.V
+	if len(data) > 0 {
+		table = append(table, rec.L(rec.B(nonce), rec.B(data), rec.B(refSeal(key, nonce, data))))
+	}
+	w.Case(desc, rec.I(6), rec.I(cfg), rec.L(table...), rec.B(nonce), rec.B(data), rec.S(tok), rec.Bool(derr == nil), rec.B(d))
+	w.Stat("encoder_case", 1)
+	w.Stat("encoder_case_cfg="+cfgNames[cfg], 1)
+	if len(data) == 0 {
+		w.Stat("encoder_case_empty_data", 1)
+	}
+}
+
 // ---------------------------------------------------------------------------------------------
 
 func replay(w *rec.Writer, path string) {
@@ -765,6 +820,9 @@ func replay(w *rec.Writer, path string) {
 		case "scenario":
 			sub, _ := strconv.ParseUint(fmt.Sprint(d["sub"]), 10, 64)
 			scenario(w, sub)
+		case "encoder":
+			sub, _ := strconv.ParseUint(fmt.Sprint(d["sub"]), 10, 64)
+			caseEncoder(w, sub)
 		}
 	}
 }
@@ -840,6 +898,8 @@ func main() {
 		case 5:
 			tok := randTokenish(r)
 			caseDeserialize(w, map[string]any{"kind": "deserialize", "tok_hex": hx(tok)}, tok)
+		case 6:
+			caseEncoder(w, r.Uint64())
 		default:
 			scenario(w, r.Uint64())
 		}
